@@ -11,5 +11,7 @@ for p in sorted(glob.glob(os.path.join(root, "hy/**/*.py"), recursive=True)):
     rel = os.path.relpath(p, root)
     m = src.py(rel)
     out[rel] = {q: fdiff.statements(f) for q, f in sorted(m.funcs.items())}
+for rel in src.hy_files():
+    out[rel] = {k: fdiff.hy_tokens(f) for k, f in fdiff.hy_forms(src.hy(rel)).items()}
 json.dump(out, open("/verif/hyverif/reviewed_functions.json", "w"), indent=0, sort_keys=True)
 print(sum(len(v) for v in out.values()), "functions")
